@@ -332,4 +332,4 @@ mod tests {
 
 #[cfg(kani)]
 #[path = "/verif/harness/may/timeout_list.rs"]
-mod verif_kani;
+pub(crate) mod verif_kani;
